@@ -4,9 +4,11 @@
 (* RaceOps.tla.  A program = MinProcs..MaxProcs processes, each a list of   *)
 (* 1..MaxOps operation kinds of one family (the family decides which shared *)
 (* objects the world of the program has, so that the processes meet on the  *)
-(* same object).  Process 1 starts with a writing operation; a program is   *)
-(* emitted only if RaceOps!ConflictPair holds for it, i.e. two different    *)
-(* processes have operations on one object and one of them writes.          *)
+(* same object).  The world has 1..3 instances of every type and every      *)
+(* process works on one of them; a program is emitted only if               *)
+(* RaceOps!NonVacuous holds: with one instance two processes conflict on    *)
+(* one object, with several instances two processes on DIFFERENT instances  *)
+(* of one type meet (they share only the package-level defaults).           *)
 (* harness/cmd/racex runs every program free-running under the race         *)
 (* detector.  -seed makes the draw reproducible.                            *)
 (***************************************************************************)
@@ -17,14 +19,22 @@ VARIABLE c
 
 NF == Len(Families)
 \* (the parameter z only defeats TLC's caching of constant-level definitions)
-RandOps(f, z) == [j \in 1..RandomElement(1..MaxOps) |-> RandomElement(FamilyKinds(f))]
+RandOps(K, z) == [j \in 1..RandomElement(1..MaxOps) |-> RandomElement(K)]
 GenProg(k) ==
   LET f == Families[(k % NF) + 1]
+      \* the kinds of this program: a family, or for "dflt" one model type
+      K == IF f = "dflt" THEN TypeKinds(RandomElement(DefaultModels)) ELSE FamilyKinds(f)
+      W == { x \in K : Kind(x).w }
       n == RandomElement(MinProcs..MaxProcs)
-  IN [n |-> k, family |-> f,
-      procs |-> [p \in 1..n |-> IF p = 1 THEN << RandomElement(FamilyWriters(f)) >> \o RandOps(f, k + p) ELSE RandOps(f, k + p)]]
+      \* one program in three has a single instance of every type (all processes on the same objects), the others
+      \* two or three instances; "pkg" helpers have no instance
+      inst == IF f \in {"pkg", "mixed"} \/ (k \div NF) % 3 = 0 THEN 1 ELSE RandomElement(2..3)
+      \* processes 1..inst start on their own instance with a writing operation, the others go anywhere
+      on == [p \in 1..n |-> IF p <= inst THEN p ELSE RandomElement(1..inst)]
+  IN [n |-> k, family |-> f, inst |-> inst, on |-> on,
+      procs |-> [p \in 1..n |-> IF p <= inst \/ p = 1 THEN << RandomElement(W) >> \o RandOps(K, k + p) ELSE RandOps(K, k + p)]]
 
 GenInit == c \in { GenProg(k) : k \in 1..NCases }
 GenNext == UNCHANGED c
-EmitCase == IF ConflictPair(c.procs) THEN PrintT("CASE " \o ToJson(c)) ELSE PrintT("SKIP " \o ToString(c.n))
+EmitCase == IF NonVacuous(c.procs, c.on, c.inst) THEN PrintT("CASE " \o ToJson(c)) ELSE PrintT("SKIP " \o ToString(c.n))
 =============================================================================
